@@ -210,6 +210,7 @@ package broker
 //@   requires [backend] backend_ok(m) && sessions_ok(m) && wf() && client != nil && client_ok(client)
 //@   ensures [closing] old(m.closing) ==> err != nil
 //@   ensures [failed] err != nil ==> s == nil && !resumed
+//@   ensures [failed-keeps-sessions] err != nil ==> forall k string {m.storedSessions[k]} :: (has(m.storedSessions, k) <==> old(has(m.storedSessions, k))) && m.storedSessions[k] == old(m.storedSessions[k])
 //@   ensures [session] err == nil ==> istype(s, *memorySession) && as(s, *memorySession) != nil && sess_ok(as(s, *memorySession)) && as(s, *memorySession).activeClient == client
 //@   ensures [anonymous] err == nil && len(id) == 0 ==> !resumed && fresh(as(s, *memorySession)) && has(m.temporarySessions, client) && m.temporarySessions[client] == as(s, *memorySession)
 //@   ensures [clean] err == nil && len(id) > 0 && clean ==> !resumed && fresh(as(s, *memorySession)) && !has(m.storedSessions, id) && has(m.activeClients, id) && m.activeClients[id] == client
